@@ -753,6 +753,45 @@ afterDecoder:
 		}
 		r.Check(bad == "", R4, shortName(fn)+": bounds obligations", p.Pos(fn.Pos()), fmt.Sprintf("%d obligations proved", n), bad)
 	}
+	// the consumers of a declared length outside the package: every function of
+	// the module that calls a quicwire.Consume* function has all its slice and
+	// index bounds proved (a declared length is compared with the REMAINING
+	// input before anything is sliced by it)
+	nCallers := 0
+	for _, fn := range p.ModuleFuncs() {
+		if fn.Pkg == nil || strings.HasSuffix(fn.Pkg.Pkg.Path(), "/quicwire") || fn.Blocks == nil {
+			continue
+		}
+		calls := ""
+		for _, b := range fn.Blocks {
+			for _, in := range b.Instrs {
+				if c, ok := in.(*ssa.Call); ok {
+					if cal := c.Call.StaticCallee(); cal != nil && cal.Pkg != nil && strings.HasSuffix(cal.Pkg.Pkg.Path(), "/quicwire") && strings.HasPrefix(cal.Name(), "Consume") {
+						calls = cal.Name()
+					}
+				}
+			}
+		}
+		if calls == "" {
+			continue
+		}
+		nCallers++
+		rg := p.NewRange(fn)
+		n, bad := 0, ""
+		for _, o := range rg.obligations() {
+			if o.kind != "slice" && o.kind != "index" {
+				continue
+			}
+			n++
+			if !o.proved {
+				bad = o.desc + ": " + o.why + " at " + p.InstrPos(o.in)
+			}
+		}
+		r.Check(bad == "", R4, shortName(fn)+" (consumer of "+calls+"): declared length checked against the remaining input before slicing", p.Pos(fn.Pos()), fmt.Sprintf("%d bounds proved", n), bad)
+	}
+	if nCallers == 0 {
+		r.Fail(R4, "consumers of quicwire.Consume*", "-", "no caller of the varint decoder found in the module (rule no longer sees the constructs it was written for)")
+	}
 	// binary.BigEndian.UintNN preconditions: len >= 4/8 guard
 	for _, c := range []struct {
 		fn string
